@@ -48,10 +48,14 @@ package evictions
 //@ spec func nsAtCap(pe *PodEvictor, ns string) bool = pe.maxPodsToEvictPerNamespace != nil && pe.namespacePodCount[ns] == deref(pe.maxPodsToEvictPerNamespace)
 //@ spec func capsHold(pe *PodEvictor) bool = (pe.maxPodsToEvictPerNode != nil ==> (forall n string :: pe.nodepodCount[n] <= deref(pe.maxPodsToEvictPerNode))) && (pe.maxPodsToEvictPerNamespace != nil ==> (forall ns string :: pe.namespacePodCount[ns] <= deref(pe.maxPodsToEvictPerNamespace)))
 
-// EvictPod only talks to the API server through the client interface; it touches no PodEvictor state.
+// EvictPod only talks to the API server through the client interface; it touches no PodEvictor state, and it
+// reports success exactly when the API eviction call succeeded (a refused or failed eviction is never swallowed).
 //@ func EvictPod [C16]
+//@   requires pod != nil
+//@   ensures #success-is-real: result == nil ==> lastresult("Evict") == nil
+//@   ensures #failure-reported: lastresult("Evict") != nil ==> result != nil
+//@   ensures #once: calls("Evict") == 1
 //@   modifies nothing
-//@   option trusted
 
 //@ func (*PodEvictor).Evict [C16]
 //@   requires evOK(pe) && pod != nil
